@@ -34,6 +34,7 @@ UNIT = dict(
             ("sub", "R13-pin", r"let this = unsafe \{ self\.get_unchecked_mut\(\) \};", "let this = self;", 1),
             ("sub", "R13-pin", r"future\.as_mut\(\)\.poll\(cx\)", "future.poll(cx, Tracked(tr))", 1),
             ("sub", "ledger-take", r"\bkey\.take\(\)", "vx_take_key(key, Tracked(tr))", -1),
+            ("sub", "ledger-user-clone", r"\b(res|e)\.clone\(\)", r"vx_user_clone(\1, Tracked(tr))", -1),
             ("sub", "R8-lock", r"in_flight\.complete\(", "vx_lock(in_flight).complete(", 1),
             ("addarg", ["complete"], TR, 1),
             ("sub", "R9-paths", r"broadcast::error::TryRecvError::", "TryRecvError::", 3),
